@@ -259,7 +259,8 @@ def _real(req, plain, mk):
     from . import real_mod, real_rt, real_disc
     if op.startswith('rt:'):
         from . import real_decl
-        return (real_rt.RT.get(op[3:]) or real_decl.RT.get(op[3:]) or real_disc.RT[op[3:]])(req)
+        from . import real_r7
+        return (real_rt.RT.get(op[3:]) or real_decl.RT.get(op[3:]) or real_r7.RT.get(op[3:]) or real_disc.RT[op[3:]])(req)
     if op in real_disc.OPS:
         return real_disc.OPS[op](req)
     if op in real_mod.OPS:
@@ -423,6 +424,9 @@ def process_chunk(task):
             except Exception as e:  # noqa  — the oracle runs the real code too (calls, evaluation of annotations, ...)
                 fails = ['oracle-exception: checking the property on %s raised %s: %s' % (
                     lines[res.n - 1][:300], type(e).__name__, str(e)[:200])]
+            if r[0].startswith('rt:'):
+                # the problems a runtime probe reports itself count for every property that runs it
+                fails = list(fails) + [f for f in oracles.rt_problems(r, ra) if f not in fails]
             for f in fails:
                 res.counters['oracle-fail'] += 1
                 k = 'fail:' + f.split(':')[0]
